@@ -544,8 +544,10 @@ def part_file(chk, drv):
                                    "why": "step %d (%s) is an operation of document %s but the complete JSON of %s changed" % (n, op, "+".join(sorted(acting)), name),
                                    "step": n, "op": op, "before": b, "after": a, "replay": line,
                                    "after_a_parsed_null_was_made_indirect": d6},
-                                  signature=SIG_SEQ if d6 else (SIG_PROVIDER if (op == "reopen" and a == "!stream-source-destroyed"
-                                                                                 and (j, next(iter(acting))) in copied) else ""))
+                                  # the provider finding is identified by its own evidence first; only otherwise the history's
+                                  # earlier makeIndirectObject on a parsed null (finding repaired by b456e5d1) names the signature
+                                  signature=SIG_PROVIDER if (op == "reopen" and a == "!stream-source-destroyed"
+                                                             and (j, next(iter(acting))) in copied) else (SIG_SEQ if d6 else ""))
                     break
             prev = hashes
         nontriv.add(line)
